@@ -155,13 +155,13 @@ theorem addPrefix_unspecified (pre o : String) (h : trimPrefix pre o = "UNSPECIF
 (without an explicit leading UNSPECIFIED) numbered from 1 -/
 theorem values_general (d : EnumDecl) :
     d.values = (d.pfx ++ "UNSPECIFIED", 0) :: numberFrom d.pfx 1 d.rest := by
-  obtain ⟨name, dp, dflt, opts⟩ := d
+  obtain ⟨name, dp, dflt, opts, desc, descs⟩ := d
   cases opts with
   | nil => unfold EnumDecl.values EnumDecl.rest; simp [numberFrom]
   | cons o rest =>
     unfold EnumDecl.values EnumDecl.rest
     simp only
-    by_cases h : (trimPrefix (EnumDecl.pfx ⟨name, dp, dflt, o :: rest⟩) o == "UNSPECIFIED") = true
+    by_cases h : (trimPrefix (EnumDecl.pfx ⟨name, dp, dflt, o :: rest, desc, descs⟩) o == "UNSPECIFIED") = true
     · rw [if_pos h, if_pos h, addPrefix_unspecified _ o (by simpa using h)]
     · rw [if_neg h, if_neg h]
 
@@ -185,13 +185,111 @@ theorem numberOf_read (d : EnumDecl) (n : String) (k : Int)
     simp only [hne, Bool.false_eq_true, if_false]
     exact byNumber_numberFrom d.pfx _ (trimPrefix d.pfx) d.rest 1 k h
 
-theorem buildEnum_plain (d : EnumDecl) :
-    buildEnum d.values = .ok { pfx := d.pfx, options := d.values.map fun nk => (trimPrefix d.pfx nk.1, nk.2) } := by
+/-! ### option descriptions: filed under the value's number, read by the value's index -/
+
+theorem commentAt_nil (i : Nat) : commentAt [] i = "" := rfl
+
+theorem commentAt_cons (k : Nat) (d : String) (tl : List (Nat × String)) (i : Nat) :
+    commentAt ((k, d) :: tl) i = if k == i then d else commentAt tl i := by
+  simp only [commentAt, List.find?_cons]
+  cases h : (k == i) <;> simp
+
+theorem commentAt_lt (l : List String) : ∀ (k i : Nat), i < k → commentAt (commentsFrom k l) i = "" := by
+  induction l with
+  | nil => intro k i _; rfl
+  | cons d r ih =>
+    intro k i h
+    simp only [commentsFrom]
+    by_cases hd : d = ""
+    · simp only [hd, if_true, List.nil_append]
+      exact ih (k + 1) i (by omega)
+    · simp only [hd, if_false, List.cons_append, List.nil_append, commentAt_cons]
+      have : (k == i) = false := by simp only [beq_eq_false_iff_ne, ne_eq]; omega
+      simp only [this, Bool.false_eq_true, if_false]
+      exact ih (k + 1) i (by omega)
+
+/-- reading the comments back by index gives every option its own description -/
+theorem map_commentAt (l : List String) : ∀ k : Nat,
+    (List.range' k l.length).map (commentAt (commentsFrom k l)) = l := by
+  induction l with
+  | nil => intro k; rfl
+  | cons d r ih =>
+    intro k
+    simp only [List.length_cons, List.range'_succ, List.map_cons]
+    have hhead : commentAt (commentsFrom k (d :: r)) k = d := by
+      simp only [commentsFrom]
+      by_cases hd : d = ""
+      · simp only [hd, if_true, List.nil_append]
+        exact commentAt_lt r (k + 1) k (by omega)
+      · simp only [hd, if_false, List.cons_append, List.nil_append, commentAt_cons, beq_self_eq_true, if_true]
+    have htail : (List.range' (k + 1) r.length).map (commentAt (commentsFrom k (d :: r))) =
+        (List.range' (k + 1) r.length).map (commentAt (commentsFrom (k + 1) r)) := by
+      apply List.map_congr_left
+      intro i hi
+      have hge : k + 1 ≤ i := (List.mem_range'_1.mp hi).1
+      simp only [commentsFrom]
+      by_cases hd : d = ""
+      · simp only [hd, if_true, List.nil_append]
+      · simp only [hd, if_false, List.cons_append, List.nil_append, commentAt_cons]
+        have : (k == i) = false := by simp only [beq_eq_false_iff_ne, ne_eq]; omega
+        simp only [this, Bool.false_eq_true, if_false]
+    rw [hhead, htail, ih (k + 1)]
+
+theorem numberFrom_length (pre : String) (l : List String) : ∀ k, (numberFrom pre k l).length = l.length := by
+  induction l with
+  | nil => intro k; rfl
+  | cons o r ih => intro k; simp [numberFrom, ih]
+
+theorem optDescs_length (d : EnumDecl) : d.optDescs.length = d.options.length := by
+  simp [EnumDecl.optDescs]
+
+theorem rest_length (d : EnumDecl) :
+    d.rest.length + (if d.isExplicit then 1 else 0) = d.options.length := by
+  obtain ⟨name, dp, dflt, opts, desc, descs⟩ := d
+  cases opts with
+  | nil => simp [EnumDecl.rest, EnumDecl.isExplicit]
+  | cons o r =>
+    unfold EnumDecl.rest EnumDecl.isExplicit
+    simp only
+    split <;> simp_all
+
+/-- the descriptions the reader finds for the compiled values are the declared ones -/
+theorem descs_read (d : EnumDecl) :
+    (List.range d.values.length).map (commentAt d.comments) = d.valueDescs := by
+  have hl := rest_length d
+  have ho := optDescs_length d
   rw [values_general d]
-  simp [buildEnum, hasSuffix_append, trimSuffix_append]
+  simp only [List.length_cons, numberFrom_length]
+  unfold EnumDecl.comments EnumDecl.valueDescs
+  cases he : d.isExplicit with
+  | true =>
+    simp only [he, if_true] at hl ⊢
+    have : d.rest.length + 1 = d.optDescs.length := by omega
+    rw [this, List.range_eq_range', map_commentAt]
+  | false =>
+    simp only [he, Bool.false_eq_true, if_false, Nat.add_zero] at hl ⊢
+    have : d.rest.length = d.optDescs.length := by omega
+    rw [this, List.range_succ_eq_map, List.map_cons, List.map_map]
+    have h0 : commentAt (commentsFrom 1 d.optDescs) 0 = "" := commentAt_lt _ 1 0 (by omega)
+    rw [h0]
+    have h1 := map_commentAt d.optDescs 1
+    rw [List.range'_eq_map_range, List.map_map] at h1
+    have h2 : (commentAt (commentsFrom 1 d.optDescs) ∘ fun x => 1 + x) =
+        (commentAt (commentsFrom 1 d.optDescs) ∘ Nat.succ) := by
+      funext x; simp [Function.comp_def, Nat.add_comm]
+    rw [h2] at h1
+    rw [h1]
+
+theorem buildEnum_plain (d : EnumDecl) :
+    buildEnum d.values d.comments = .ok { pfx := d.pfx, options := d.values.map fun nk => (trimPrefix d.pfx nk.1, nk.2),
+                                           descs := d.valueDescs } := by
+  have hd := descs_read d
+  rw [values_general d] at hd ⊢
+  simp only [buildEnum, hasSuffix_append, trimSuffix_append, Bool.not_true, Bool.false_eq_true, if_false, hd]
 
 theorem readDecl_norm (d : EnumDecl) :
-    readDecl d.name { pfx := d.pfx, options := d.values.map fun nk => (trimPrefix d.pfx nk.1, nk.2) } = normDecl d := by
+    readDecl d.name d.description { pfx := d.pfx, options := d.values.map fun nk => (trimPrefix d.pfx nk.1, nk.2),
+                                    descs := d.valueDescs } = normDecl d := by
   simp [readDecl, normDecl, List.map_map, Function.comp_def]
 
 theorem names_read (d : EnumDecl) (names : List String)
